@@ -338,7 +338,18 @@ impl Ctx {
     }
 
     pub fn violation(&mut self, key: &str, what: String, case: Value, size: u64) {
-        *self.stats.violation_counts.entry(key.to_string()).or_insert(0) += 1;
+        let n = {
+            let c = self.stats.violation_counts.entry(key.to_string()).or_insert(0);
+            *c += 1;
+            *c
+        };
+        // keep (and journal) only candidates that can end up among the 3 smallest of their key
+        let worst = self.stats.violations.iter().filter(|v| v.key == key).map(|v| v.size).max();
+        let retained = self.stats.violations.iter().filter(|v| v.key == key).count();
+        if retained >= 3 && worst.map(|w| size >= w).unwrap_or(false) {
+            return;
+        }
+        let _ = n;
         let v = Violation {
             property: self.property.clone(),
             key: key.to_string(),
@@ -353,6 +364,22 @@ impl Ctx {
             }
         }
         self.stats.push_violation(v);
+    }
+
+    /// cheap pre-test so callers can avoid building the case JSON for violations that would be dropped
+    pub fn wants_violation(&self, key: &str, size: u64) -> bool {
+        let mut n = 0;
+        let mut worst = 0;
+        for v in &self.stats.violations {
+            if v.key == key {
+                n += 1;
+                worst = worst.max(v.size);
+            }
+        }
+        n < 3 || size < worst
+    }
+    pub fn count_violation_only(&mut self, key: &str) {
+        *self.stats.violation_counts.entry(key.to_string()).or_insert(0) += 1;
     }
 }
 
